@@ -451,7 +451,10 @@ def step (st : DSt) (toks : List String) : DSt × String :=
     not depend on the counters (`foldXH_counters_irrelevant`), so it is the fold of the next line. -/
 def stepTop (st : DSt) (toks : List String) : DSt × String :=
   match toks with
-  | "inner" :: rest => step st rest
+  | "inner" :: rest =>
+    -- the report went to the callback that made the call: the caller's "last plain report" (`map`) is not this one
+    let r := step st rest
+    ({ r.1 with last := st.last }, r.2)
   -- the ChaperoneLoop object of the previous healing run heals again (the wrapper keeps no state between runs)
   | "healr" :: rest => step st ("heal" :: rest)
   | _ => step st toks
